@@ -86,6 +86,7 @@ type u128 = u128;
 type Unit = Struct<ut@Tuple>;
 type U2 = Struct<ut@verif::U2>;
 type NZ = NonZero<felt252>;
+type Unf = Uninitialized<felt252>;
 libfunc branch_align = branch_align;
 libfunc jump = jump;
 libfunc felt252_is_zero = felt252_is_zero;
@@ -183,6 +184,41 @@ def negative_sierra_templates(out_dir):
     body["branch_fallthrough_to_return"] = "felt252_is_zero([0]) { fallthrough() B([1]) };\nreturn();\nB:\nbranch_align() -> ();\ndrop_nz([1]) -> ();\nreturn();\n\nverif::f@0([0]: felt252) -> ();\n"
     body["branch_fallthrough_no_align"] = ("dup_felt([0]) -> ([0], [2]);\nfelt252_is_zero([0]) { fallthrough() B([1]) };\ndrop_felt([2]) -> ();\nreturn();\n"
                                            "B:\nbranch_align() -> ();\ndrop_nz([1]) -> ();\ndrop_felt([2]) -> ();\nreturn();\n\nverif::f@0([0]: felt252) -> ();\n")
+    # ---- one template per acceptance error variant that had none (annotations.rs / compiler.rs / environment / registry)
+    # a statement reachable from two functions (f jumps into the body of g)
+    body["flow_into_other_function"] = ("jump() { G() };\nG:\ndrop_felt([0]) -> ();\nreturn();\n\nverif::f@0([0]: felt252) -> ();\nverif::g@1([0]: felt252) -> ();\n")
+    # falling through into a statement that is also the target of a branch (no jump / return in between)
+    body["fallthrough_into_branch_target"] = ("dup_felt([0]) -> ([0], [2]);\nfelt252_is_zero([0]) { fallthrough() B([1]) };\nbranch_align() -> ();\nstore_felt([2]) -> ([2]);\n"
+                                              "B:\nbranch_align() -> ();\ndrop_felt([2]) -> ();\nreturn();\n\nverif::f@0([0]: felt252) -> ();\n")
+    # merge: the same variable is a parameter cell on one path and a fresh temporary on the other
+    body["merge_expression_mismatch"] = ("dup_felt([0]) -> ([0], [2]);\nfelt252_is_zero([0]) { fallthrough() B([1]) };\nbranch_align() -> ();\njump() { M() };\n"
+                                         "B:\nbranch_align() -> ();\ndrop_nz([1]) -> ();\nstore_felt([2]) -> ([2]);\nM:\ndrop_felt([2]) -> ();\nreturn();\n\nverif::f@0([0]: felt252) -> ();\n")
+    # merge: two temporaries pushed in opposite orders on the two paths
+    body["merge_stack_order_mismatch"] = ("dup_felt([0]) -> ([0], [2]);\ndup_felt([2]) -> ([2], [3]);\nfelt252_is_zero([0]) { fallthrough() B([1]) };\nbranch_align() -> ();\n"
+                                          "store_felt([2]) -> ([2]);\nstore_felt([3]) -> ([3]);\njump() { M() };\n"
+                                          "B:\nbranch_align() -> ();\ndrop_nz([1]) -> ();\nstore_felt([3]) -> ([3]);\nstore_felt([2]) -> ([2]);\nM:\ndrop_felt([2]) -> ();\nstore_felt([3]) -> ([3]);\nreturn([3]);\n\nverif::f@0([0]: felt252) -> (felt252);\n")
+    # merge: ap tracking disabled on one path only
+    body["merge_ap_tracking_mismatch"] = ("libfunc disable_ap_tracking = disable_ap_tracking;\nfelt252_is_zero([0]) { fallthrough() B([1]) };\nbranch_align() -> ();\ndisable_ap_tracking() -> ();\njump() { M() };\n"
+                                          "B:\nbranch_align() -> ();\ndrop_nz([1]) -> ();\nM:\nreturn();\n\nverif::f@0([0]: felt252) -> ();\n")
+    body["enable_ap_tracking_twice"] = ("libfunc enable_ap_tracking = enable_ap_tracking;\nlibfunc disable_ap_tracking = disable_ap_tracking;\ndisable_ap_tracking() -> ();\nenable_ap_tracking() -> ();\nenable_ap_tracking() -> ();\ndrop_felt([0]) -> ();\nreturn();\n\nverif::f@0([0]: felt252) -> ();\n")
+    # a return value that is not on the top of the stack (a parameter cell)
+    body["return_not_on_stack"] = "return([0]);\n\nverif::f@0([0]: felt252) -> (felt252);\n"
+    body["return_wrong_stack_order"] = "store_felt([0]) -> ([0]);\nstore_felt([1]) -> ([1]);\nreturn([1], [0]);\n\nverif::f@0([0]: felt252, [1]: felt252) -> (felt252, felt252);\n"
+    # merge: locals finalized on one path only
+    body["merge_frame_state_mismatch"] = ("libfunc finalize_locals = finalize_locals;\nfelt252_is_zero([0]) { fallthrough() B([1]) };\nbranch_align() -> ();\nfinalize_locals() -> ();\njump() { M() };\n"
+                                          "B:\nbranch_align() -> ();\ndrop_nz([1]) -> ();\nM:\nreturn();\n\nverif::f@0([0]: felt252) -> ();\n")
+    # registry-level structure
+    body["duplicate_function_id"] = "drop_felt([0]) -> ();\nreturn();\n\nverif::f@0([0]: felt252) -> ();\nverif::f@0([0]: felt252) -> ();\n"
+    body["entry_point_out_of_range"] = "drop_felt([0]) -> ();\nreturn();\n\nverif::f@7([0]: felt252) -> ();\n"
+    body["invocation_arg_count"] = "felt252_add([0]) -> ([1]);\nstore_felt([1]) -> ([1]);\nreturn([1]);\n\nverif::f@0([0]: felt252) -> (felt252);\n"
+    body["invocation_result_count"] = "dup_felt([0]) -> ([0]);\ndrop_felt([0]) -> ();\nreturn();\n\nverif::f@0([0]: felt252) -> ();\n"
+    body["invocation_branch_count"] = "felt252_is_zero([0]) { fallthrough() };\nreturn();\n\nverif::f@0([0]: felt252) -> ();\n"
+    body["fallthrough_branch_misplaced"] = "felt252_is_zero([0]) { B() fallthrough([1]) };\nbranch_align() -> ();\ndrop_nz([1]) -> ();\nreturn();\nB:\nbranch_align() -> ();\nreturn();\n\nverif::f@0([0]: felt252) -> ();\n"
+    body["jump_out_of_range"] = "jump() { 99() };\n\nverif::f@0() -> ();\n"
+    body["two_branches_same_target"] = "felt252_is_zero([0]) { B() B([1]) };\nB:\nbranch_align() -> ();\nreturn();\n\nverif::f@0([0]: felt252) -> ();\n"
+    body["missing_libfunc"] = "undeclared_libfunc([0]) -> ();\nreturn();\n\nverif::f@0([0]: felt252) -> ();\n"
+    body["unstorable_param"] = "libfunc drop_unf = drop<Unf>;\ndrop_unf([0]) -> ();\nreturn();\n\nverif::f@0([0]: Unf) -> ();\n"
+
     for k, v in body.items():
         progs[k] = _HDR + v
     # frame state (environment/frame_state.rs): where alloc_local / finalize_locals are allowed.  Not part of the Coq
@@ -232,6 +268,13 @@ def negative_sierra_templates(out_dir):
         "ti_snapshot_of_array_not_dup": ti("S", "Snapshot<Arr>", T, T, F, F, "type Arr = Array<felt252>;\n", "libfunc drop_s = drop<S>;\n", "drop_s([0]) -> ();\nreturn();", "verif::f@0([0]: S) -> ();"),
     }
     progs.update(tis)
+    # constants whose data does not fit their declared type
+    progs["const_out_of_range"] = ("type u8 = u8;\ntype C300 = Const<u8, 300>;\nlibfunc c300 = const_as_immediate<C300>;\nlibfunc store_u8 = store_temp<u8>;\n"
+                                   "c300() -> ([0]);\nstore_u8([0]) -> ([0]);\nreturn([0]);\n\nverif::f@0() -> (u8);\n")
+    progs["const_negative_unsigned"] = ("type u8 = u8;\ntype Cm1 = Const<u8, -1>;\nlibfunc cm1 = const_as_immediate<Cm1>;\nlibfunc store_u8 = store_temp<u8>;\n"
+                                        "cm1() -> ([0]);\nstore_u8([0]) -> ([0]);\nreturn([0]);\n\nverif::f@0() -> (u8);\n")
+    progs["const_struct_wrong_arity"] = ("type u8 = u8;\ntype P = Struct<ut@verif::P, u8, u8>;\ntype C1 = Const<u8, 1>;\ntype CP = Const<P, C1>;\ntype BP = Box<P>;\nlibfunc cp = const_as_box<CP, 0>;\n"
+                                         "libfunc store_bp = store_temp<BP>;\ncp() -> ([0]);\nstore_bp([0]) -> ([0]);\nreturn([0]);\n\nverif::f@0() -> (BP);\n")
     # references (references.rs / cell_expression.rs): a value whose location is ap-relative must not survive a statement
     # with an unknown ap change (call of a recursive function): temporaries, deferred additions, deferred double derefs
     r_hdr = ("type felt252 = felt252;\ntype NZ = NonZero<felt252>;\ntype BoxF = Box<felt252>;\n"
